@@ -248,6 +248,45 @@ def gen_tie_case(rng: random.Random, n: int):
     return conds, queries
 
 
+def gen_flat_case(rng: random.Random, n: int):
+    """independent defaults in one flat layer, (l_i|Top) or (l_i|guard): worlds violating different defaults have
+    incomparable falsification sets, so one layer has several minimal correction sets; returns (conds, queries)"""
+    atoms = list(range(n))
+    rng.shuffle(atoms)
+    k = rng.randint(3, max(3, min(n, 4))) if n >= 3 else n
+    lits = [("a", a) if rng.random() < 0.8 else ("!", ("a", a)) for a in atoms[:k]]
+    guard = ("T",)
+    if k < n and rng.random() < 0.3:
+        guard = ("a", atoms[k])
+    conds = [(l, guard) for l in lits]
+    if rng.random() < 0.25:
+        conds.append(gen_cond(rng, n, 1, 0.0))
+    rng.shuffle(conds)
+
+    def neg(l):
+        return l[1] if l[0] == "!" else ("!", l)
+
+    queries = []
+    for _ in range(6):
+        i, j = rng.sample(range(k), 2)
+        rest = [l for t, l in enumerate(lits) if t not in (i, j)] or lits
+        x = rng.choice(rest)
+        x = x if rng.random() < 0.7 else neg(x)
+        r = rng.random()
+        if r < 0.45:
+            ante = ("|", neg(lits[i]), neg(lits[j]))
+        elif r < 0.65:
+            ante = ("!", ("&", lits[i], lits[j]))
+        elif r < 0.8:
+            ante = neg(lits[i])
+        else:
+            ante = gen_formula(rng, n, 2, 0.0)
+        if guard != ("T",) and rng.random() < 0.7:
+            ante = ("&", guard, ante)
+        queries.append((x, ante))
+    return conds, queries
+
+
 def gen_chain_case(rng: random.Random, n: int):
     """exception chain s_m < ... < s_1 < c with alternating property f: (f|c), (!f|s_1), (c|s_1), (f|s_2), (s_1|s_2) ...
     gives m + 1 tolerance layers (m = n - 2); returns (conds, queries)"""
